@@ -26,6 +26,7 @@
 #include "Polygon/Polygons.hpp"
 #include "Polygon/PolyElem.hpp"
 #include "Db/Db.hpp"
+#include "Basic/CSVformat.hpp"
 #include "Enum/ELoadBy.hpp"
 #include "Basic/VectorNumT.hpp"
 #include "geoslib_define.h"
@@ -299,6 +300,53 @@ static void runPoly(const Value& c, const std::vector<Pt>& q0, const std::vector
   fprintf(out, "%s\n", vj::dump(o).c_str());
 }
 
+// ---------------------------------------------------------------- polygon sets read from files
+static std::string TMPBASE;
+static std::string num17(double v) { char b[40]; snprintf(b, sizeof b, "%.17g", v); return b; }
+
+// rows emitted by the specification ([] = separator) written as a CSV file: header, one vertex per row,
+// separator rows made of the NA string
+static Polygons* viaCSV(const Image& im, const Value& rows)
+{
+  std::string path = TMPBASE + ".csv";
+  { std::ofstream f(path);
+    f << "x,y\n";
+    for (auto& r : rows.arr)
+    {
+      if (r.size() == 0) f << "NA,NA\n";
+      else f << num17(mapx(im, r[0].i(), r[1].i())) << "," << num17(mapy(im, r[0].i(), r[1].i())) << "\n";
+    } }
+  Polygons* P = Polygons::createFromCSV(path, CSVformat(), false);
+  remove(path.c_str());
+  return P;
+}
+// the same rings as one MULTIPOLYGON text (perLine = false) or one text per ring
+static Polygons* viaWKT(const Image& im, const Value& rows, bool perLine)
+{
+  std::string path = TMPBASE + ".wkt";
+  { std::ofstream f(path);
+    f << "WKT\n";
+    std::vector<std::string> rings;
+    std::string cur;
+    for (auto& r : rows.arr)
+    {
+      if (r.size() == 0) { if (!cur.empty()) rings.push_back(cur); cur.clear(); continue; }
+      if (!cur.empty()) cur += ",";
+      cur += num17(mapx(im, r[0].i(), r[1].i())) + " " + num17(mapy(im, r[0].i(), r[1].i()));
+    }
+    if (!cur.empty()) rings.push_back(cur);
+    if (perLine) for (auto& g : rings) f << "\"MULTIPOLYGON (((" << g << ")))\"\n";
+    else
+    {
+      f << "\"MULTIPOLYGON (((";
+      for (size_t i = 0; i < rings.size(); i++) f << (i ? ")),((" : "") << rings[i];
+      f << ")))\"\n";
+    } }
+  Polygons* P = Polygons::createFromWKT(path, CSVformat(), false);
+  remove(path.c_str());
+  return P;
+}
+
 // ---------------------------------------------------------------- polygon sets
 static void runSet(const Value& c, const std::vector<Pt>& q0, const std::vector<int>& prev, int noz, FILE* out)
 {
@@ -320,6 +368,7 @@ static void runSet(const Value& c, const std::vector<Pt>& q0, const std::vector<
     std::vector<char> skip(nq);
     for (int i = 0; i < nq; i++) skip[i] = (a[i] == 2);
     Obs obs, obsSel;
+    long nfile[2] = {0, 0};     // sets built from a CSV file / from a WKT file
     int cnt = 0;
     for (int ii : imgs)
     {
@@ -349,6 +398,43 @@ static void runSet(const Value& c, const std::vector<Pt>& q0, const std::vector<
       }
       obs.add(s1, tag + "Polygons.inside(x,y,z)");
       if (!hasz) obs.add(s2, tag + "Polygons.inside(x,y)");
+      // construction routes: the same set read from a CSV / WKT file in every form emitted by the specification
+      // (files carry no vertical limits: 2-D variants only), and dumped to / reloaded from a neutral file
+      if (!hasz && c.has("files"))
+      {
+        const Value& files = c.at("files");
+        for (size_t f = 0; f < files.size(); f++)
+        {
+          if (lvl != "full" && ((id + ii + f) % 2) != 0 && f != 0) continue;
+          const Value& rows = files[f].at("rows");
+          for (int route = 0; route < 3; route++)
+          {
+            if (route > 0 && ((id + f + route) % 2) != 0) continue;
+            Polygons* Q = route == 0 ? viaCSV(im, rows) : viaWKT(im, rows, route == 2);
+            char fb[96];
+            snprintf(fb, sizeof fb, "%s(form %d: closed=%s, trailing separator=%d)", route == 0 ? "createFromCSV" : route == 1 ? "createFromWKT" : "createFromWKT(one ring per line)",
+                     (int)f, vj::dump(files[f].at("closed")).c_str(), files[f].at("trail").i());
+            std::string r1(nq, '.');
+            if (Q == nullptr) r1 = std::string(nq, 'N');
+            else if (Q->getPolyElemNumber() != ne) r1 = std::string(nq, 'n');
+            else for (int i = 0; i < nq; i++)
+            {
+              if (skip[i]) continue;
+              c2[0] = mapx(im, q[i].x, q[i].y); c2[1] = mapy(im, q[i].x, q[i].y);
+              r1[i] = Q->inside(c2, nested) ? '1' : '0';
+            }
+            obs.add(r1, tag + fb + ".inside");
+            nfile[route == 0 ? 0 : 1]++;
+            if (Q != nullptr && route == 0 && (f % 2) == 0)
+            {
+              Db* db = makeDb(im, q, false, TEST, nullptr);
+              obs.add(runDbPolygon(db, *Q, false, nested, skip), tag + fb + " -> db_polygon");
+              delete db;
+            }
+            delete Q;
+          }
+        }
+      }
       if (ne == 1) obs.add(s3, tag + "PolyElem.inside&&inside3D");
       {
         Db* db = makeDb(im, q, hasz || (cnt % 2 == 1), hasz ? (double)zi : TEST, nullptr);
@@ -369,6 +455,8 @@ static void runSet(const Value& c, const std::vector<Pt>& q0, const std::vector<
     o["n"] = Value(obs.n);
     o["obs"] = obs.json();
     if (obsSel.n) { o["nsel"] = Value(obsSel.n); o["obssel"] = obsSel.json(); }
+    o["ncsv"] = Value(nfile[0]);
+    o["nwkt"] = Value(nfile[1]);
     fprintf(out, "%s\n", vj::dump(o).c_str());
   }
 }
@@ -592,6 +680,7 @@ int main(int argc, char** argv)
   FILE* out = fopen(argv[2], "w");
   if (!out) { fprintf(stderr, "cannot write %s\n", argv[2]); return 2; }
   OUTFD = fileno(out);
+  TMPBASE = std::string(argv[2]) + ".tmp" + std::to_string((long)getpid());
   // the library prints on stdout: silence it
   int devnull = open("/dev/null", O_WRONLY);
   if (devnull >= 0) { dup2(devnull, 1); }
